@@ -174,6 +174,26 @@ fn exec_hash(sc: &Scenario) -> Outcome {
             };
             let (sa, sb) = (show(&a), show(&b));
             d.str(&sa);
+            // the same call on a rule loaded afresh (not a clone of one that was optimised before)
+            tau_engine::verif::set_hash_seed(sc.hash_seeds.first().copied().unwrap_or(0));
+            if let Loaded::Ok(fresh) = load(&sc.rule_text) {
+                if let Ok(c) = optimise(&fresh, *sw, *h) {
+                    let sc3 = show(&c);
+                    if sc3 != sa {
+                        push_violation(
+                            &mut vs,
+                            Violation::new(
+                                "optimise_depends_on_history",
+                                sw_name(*sw),
+                                format!(
+                                    "optimise({}) of a clone of a rule whose other clones were optimised before printed\n  {}\nbut on a freshly loaded rule\n  {}",
+                                    sw_name(*sw), sa.replace('\n', " "), sc3.replace('\n', " ")
+                                ),
+                            ),
+                        );
+                    }
+                }
+            }
             if sa != sb {
                 push_violation(
                     &mut vs,
@@ -353,7 +373,29 @@ fn exec_history(sc: &Scenario) -> Outcome {
                 let _ = guarded(|| serde_yaml::to_string(&cur));
             }
             Op::Optimise(s2, h2) => {
-                let _ = optimise(&cur, *s2, *h2);
+                // optimising a clone of the long-lived rule must give what optimising a freshly
+                // loaded rule gives (state shared between clones would show here)
+                if let Ok(o) = optimise(&cur, *s2, *h2) {
+                    tau_engine::verif::set_hash_seed(h);
+                    if let Loaded::Ok(fresh_rule) = load(&sc.rule_text) {
+                        let base = if sw != 0 { optimise(&fresh_rule, sw, h).ok() } else { Some(*fresh_rule) };
+                        if let Some(Ok(expect)) = base.map(|b| optimise(&b, *s2, *h2)) {
+                            if show(&o) != show(&expect) {
+                                push_violation(
+                                    &mut vs,
+                                    Violation::new(
+                                        "optimise_depends_on_history",
+                                        sw_name(*s2),
+                                        format!(
+                                            "op #{}: optimise({}) of a clone of the long-lived rule printed\n  {}\nbut the same call on a freshly loaded rule prints\n  {}",
+                                            k, sw_name(*s2), show(&o).replace('\n', " "), show(&expect).replace('\n', " ")
+                                        ),
+                                    ),
+                                );
+                            }
+                        }
+                    }
+                }
             }
             Op::Validate => {
                 let _ = guarded(|| cur.validate().is_ok());
